@@ -45,8 +45,7 @@ import vlib
 import treeio
 import lexreflib as L
 
-THEOREMS = ["C14_conforms_outside_known", "C14_conforms_directives_outside_known", "C14_conforms_refuted", "C14_separated",
-            "C14_nested_comments"]
+THEOREMS = ["C14_conforms", "C14_conforms_directives", "C14_munch", "C14_separated", "C14_nested_comments"]
 KEY_D26 = "radix-prefix-identifier"
 TRUSTED = [
     "Coq 8.16.1 kernel (coqc, vm_compute where the proofs use it); Print Assumptions of every theorem is checked against the allow-list (target: closed under the global context)",
@@ -991,7 +990,7 @@ def run(ctx):
                 if L.not_merged([(p[0], p[1]) for p in ps]):
                     account(ps)
     # (i)+(ii) random sequences
-    n_seq = 22000 * scale
+    n_seq = 30000 * scale
     for i in range(n_seq):
         r = i % 20
         if r < 3:
@@ -1006,7 +1005,7 @@ def run(ctx):
             account(ps)
             kept.append(ps)
     # mutations of valid sequences, raw random texts, exhaustive small texts
-    n_mut, n_raw = 8000 * scale, 4000 * scale
+    n_mut, n_raw = 10000 * scale, 5000 * scale
     for _ in range(n_mut):
         ps = ctx.rng.choice(kept)
         cases.append(("mutated", mutate(ctx.rng, "".join(p[1] for p in ps)), None, False))
